@@ -14,6 +14,11 @@ def cycle(s, rng, i):
     A, B, H, P = WATCH + "/inc/a.txt", WATCH + "/n", WATCH + "/hist.log", WATCH + "/proj/src/m.c"
     s.exec(3, X + "/elf/vim")
     s.exec(4, X + "/cat")
+    # editor-named executables whose image is damaged: every rejection path of the ELF reader
+    s.exec(5, X + "/cut/vim")        # ends inside the PT_INTERP segment
+    s.exec(5, X + "/cut2/vim")       # ends inside the program header table
+    s.exec(5, X + "/nonul/vim")      # interpreter string without terminator
+    s.exec(5, X + "/short/vim")      # shorter than an ELF header
     s.put(A, "a%d" % i)
     s.write(3, A)
     s.put(B, "b%d" % i)
@@ -27,7 +32,18 @@ def cycle(s, rng, i):
     s.put(A, "again%d" % i)
     s.write(3, A)
     s.rm(A)              # deleted source
+    D = WATCH + "/inc/d.txt"
+    s.put(D, "d%d" % i)
+    s.write(3, D)
+    s.rm(D)
+    s.mkdirp(D)          # source replaced by a directory
+    U = WATCH + "/inc/u.txt"
+    s.put(U, "u%d" % i)
+    s.write(3, U)
+    s.chmod(U, False)    # unreadable source
     s.timeout()
+    s.add("rmdir %s" % wc.hexs(D))
+    s.chmod(U, True)
     s.tick(1)
     s.timeout()
 
@@ -37,6 +53,11 @@ def soak_script(rounds, seed):
     s = wc.Script(log=False)
     wc.setup_world(s, wc.base_cfg(deb=0))
     s.put(WATCH + "/hist.log", "")
+    img = wc.elf_image(X + "/ld.so")
+    s.put(X + "/cut/vim", img[:-3])
+    s.put(X + "/cut2/vim", img[:100])
+    s.put(X + "/nonul/vim", wc.elf_image(X + "/ld.so", nul=False))
+    s.put(X + "/short/vim", img[:20])
     s.start()
     for i in range(rounds):
         cycle(s, rng, i)
@@ -72,7 +93,7 @@ def main(rep):
         rep.cov["soak_figures_fds_live"] = figures
         base = figures.get("soak1")
         total += len(soak)
-        if not found:
+        if not found:     # (a divergence of the histories is deferred: the soak still decides)
             for cid, fig in figures.items():
                 if fig != base:
                     rep.violation("soak", {"what": "descriptors / live heap blocks after %s are %s, after one round %s: resource use grows with the number of events"
@@ -90,7 +111,7 @@ def main(rep):
     rep.cov["traces_validated_against_impl"] = validated
     rep.cov["input_distribution"] = {"histories": total - 3, "soak_runs": 3}
     rep.cov["rule"] = ("random mixed histories with the number of descriptors opened by klunok and not closed (wrapped open/close) checked after every operation: "
-                       "2 with a handler loaded, 0 after release; soak: one round of a mixed history (editor exec with ELF interpreter, plain files, a history path, "
+                       "2 with a handler loaded, 0 after release; soak: one round of a mixed history (editor exec with ELF interpreter, four damaged editor-named ELF images, plain files, sources replaced by a directory / made unreadable, a history path, "
                        "a project file, a collision, a deleted source, three passes) repeated 1, 10 and 100 times must end with identical counts of live heap "
                        "blocks (wrapped malloc/calloc/realloc/strdup/free) and descriptors, before and after releasing the handler")
     rep.cov["samples"] = [soak_script(1, rep.seed).split("\n")[-25:]]
